@@ -54,7 +54,11 @@ fn run_case(_kind: &str, idx: u64, rng: &mut Rng, mon: &mut Mon, _tier: Tier) {
     });
     let pose = stack.forward(&q);
     let branches = stack.inverse(&pose);
-    let n_obs = 1 + rng.usize(3);
+    // a fifth of the cells has no environment at all: only self collisions (links, tool, base) filter
+    let n_obs = if rng.bool(0.2) { 0 } else { 1 + rng.usize(3) };
+    if n_obs == 0 {
+        mon.count("cells_without_environment");
+    }
     for _ in 0..n_obs {
         if branches.is_empty() || rng.bool(0.2) {
             cell.add_random_obstacle(rng);
